@@ -41,6 +41,7 @@ impl Prop for C10 {
             reopen: 0,
             rebuild: 0,
             extra: 0,
+            pressure: 3,
         };
         let cfg = EvCfg {
             kind_weights: [3, 3, 4, 0, 1],
@@ -66,7 +67,7 @@ impl Prop for C10 {
         };
         for (stepno, op) in c.ops.iter().enumerate() {
             let Some(conc) = w.concretise(op) else { continue };
-            let is_del = matches!(&conc, Concrete::Store(i) if w.events[*i].kind == 5);
+            let is_del = matches!(conc.inner(), Concrete::Store(i) if w.events[*i].kind == 5);
             if !is_del {
                 let step = w.apply(&conc);
                 if let Res::Panic(k) = &step.res {
@@ -75,7 +76,10 @@ impl Prop for C10 {
                 }
                 continue;
             }
-            let Concrete::Store(ri) = conc.clone() else { unreachable!() };
+            let Concrete::Store(ri) = conc.inner().clone() else { unreachable!() };
+            if conc.under_pressure() {
+                out.label("request-under-reader-exhaustion");
+            }
             let req = w.events[ri].clone();
             let r_before = match w.retrievable() {
                 Ok(r) => r,
@@ -110,12 +114,12 @@ impl Prop for C10 {
                 let target_idx = if t[0] == "e" { w.by_id.get(&t[1].to_lowercase()).copied() } else { None };
                 let is_foreign_stored = match (&t[0][..], target_idx) {
                     ("e", Some(j)) => r_before.contains(&j) && w.events[j].pubkey != req.pubkey,
-                    ("a", _) => Addr::try_from_bytes(t[1].as_bytes()).map(|a| hex(a.author.as_slice()) != req.pubkey && foreign.iter().any(|j| World::address_of(&w.events[*j]).map(|x| x.0 == a.kind.as_u16() && x.1 == hex(a.author.as_slice()) && x.2.as_bytes() == a.d.as_slice()).unwrap_or(false))).unwrap_or(false),
+                    ("a", _) => parse_addr(&t[1]).map(|a| a.1 != req.pubkey && foreign.iter().any(|j| World::address_of(&w.events[*j]).map(|x| x == a).unwrap_or(false))).unwrap_or(false),
                     _ => false,
                 };
                 let is_own_effective = match (&t[0][..], target_idx) {
                     ("e", Some(j)) => r_before.contains(&j) && w.events[j].pubkey == req.pubkey,
-                    ("a", _) => Addr::try_from_bytes(t[1].as_bytes()).map(|a| hex(a.author.as_slice()) == req.pubkey).unwrap_or(false),
+                    ("a", _) => parse_addr(&t[1]).map(|a| a.1 == req.pubkey).unwrap_or(false),
                     _ => false,
                 };
                 if is_foreign_stored {
